@@ -97,7 +97,7 @@ func (opts GeneratorOptions) setFields(
 		for i := 0; i < n; i++ {
 			f := fields.Get(i)
 			if !rapid.Bool().Draw(t, fmt.Sprintf("gen-%s", f.Name())) {
-				if (f.Kind() == protoreflect.MessageKind) && !opts.DisallowNilMessages {
+				if (f.Kind() == protoreflect.MessageKind) && !opts.DisallowNilMessages && !(f.IsList() && opts.NoEmptyLists) {
 					continue
 				}
 			}
